@@ -30,6 +30,7 @@ type Report struct {
 	FSCalls      []string
 	PkgOrder     []string
 	PluginOrder  []string
+	BuildHooks   []string
 	FilesChanged int
 }
 
@@ -198,6 +199,12 @@ func rewriteFile(p *packages.Package, f *ast.File, path, root string, rep *Repor
 					rep.PkgOrder = append(rep.PkgOrder, site(n.Pos()))
 					changed = true
 				}
+			}
+		case *ast.FuncDecl:
+			if p.Name == "main" && n.Name.Name == "main" && n.Recv == nil && n.Body != nil {
+				n.Body.List = append([]ast.Stmt{&ast.ExprStmt{X: &ast.CallExpr{Fun: sim("InstallBuildHooks")}}}, n.Body.List...)
+				rep.BuildHooks = append(rep.BuildHooks, site(n.Pos()))
+				changed = true
 			}
 		case *ast.CompositeLit:
 			if p.PkgPath == "github.com/awalterschulze/goderive" || p.Name == "main" {
